@@ -58,6 +58,8 @@ type Ctx struct {
 	Tier  string
 	Res   *Result
 	Knobs map[string]string
+	hash  uint64
+	sig   uint64
 }
 
 func (c *Ctx) Fault(kind string) {
@@ -97,11 +99,14 @@ var props = map[string]RunFunc{}
 // engine verdict into a failure.
 func (c *Ctx) FinishSim(s *simrt.Sim, v *simrt.Verdict) {
 	r := c.Res
-	r.Steps = s.Step
-	r.Choices = s.Choices
-	r.Hash = strconv.FormatUint(s.Hash(), 16)
-	r.Sig = strconv.FormatUint(s.Signature(), 16)
-	r.SimNS = int64(s.Now())
+	// A run may consist of several simulations (sub-evaluations): accumulate.
+	r.Steps += s.Step
+	r.Choices += s.Choices
+	c.hash = c.hash*1099511628211 ^ s.Hash()
+	c.sig = c.sig*1099511628211 ^ s.Signature()
+	r.Hash = strconv.FormatUint(c.hash, 16)
+	r.Sig = strconv.FormatUint(c.sig, 16)
+	r.SimNS += int64(s.Now())
 	r.Strategy = s.Strat.Name
 	r.Gs = s.NumGoroutines()
 	for k, n := range s.Probes {
